@@ -33,6 +33,7 @@ type request struct {
 	names []string    // introspect: probed names
 	chain []chainNode // chain
 	tags  []string
+	sdoc  *sdocument // sdoc
 }
 
 func (rq *request) observe(s *side) sexp.Node {
@@ -44,6 +45,8 @@ func (rq *request) observe(s *side) sexp.Node {
 		return sexp.L(o.sexp(true, false))
 	case "chain":
 		return sexp.L(o.sexp(true, false), sexp.T("lines", o.errorLines().List...), sexp.T("final", o.chainFinal(chainKeys(rq.chain))))
+	case "sdoc":
+		return sexp.L(o.sexp(true, false), sexp.T("lines", o.errorLines().List...), o.tree(rq.sdoc.tkeys))
 	}
 	return sexp.L(o.sexp(true, false))
 }
@@ -56,6 +59,8 @@ func (rq *request) sexp(a, b *side) sexp.Node {
 	case "stdintro": // the query text is introspection.Query
 	case "chain":
 		items = append(items, sexp.T("query", sexp.Str(rq.query)), sexp.T("chain", chainSexp(rq.chain).List...))
+	case "sdoc":
+		items = append(items, sexp.T("query", sexp.Str(rq.query)), rq.sdoc.sexp())
 	case "doc":
 		items = append(items, sexp.T("query", sexp.Str(rq.query)), sexp.T("vars", sexp.Str(varsJSON(rq.vars))), sexp.T("tags", strs(rq.tags)...))
 	}
@@ -186,7 +191,7 @@ func runApifuCase(F []string, ws bool) sexp.Node {
 	return sexp.T("case", head...)
 }
 
-func randomRequests(r *rng.R, d *desc, std bool, nChains, nDocs int) []*request {
+func randomRequests(r *rng.R, d *desc, std bool, nChains, nDocs, nSdocs int) []*request {
 	names := probeNames(d)
 	reqs := []*request{{kind: "introspect", query: probeQuery(names), names: names}}
 	if std {
@@ -199,6 +204,10 @@ func randomRequests(r *rng.R, d *desc, std bool, nChains, nDocs int) []*request 
 	for i := 0; i < nDocs; i++ {
 		q, vars, tags := genDoc(r, d)
 		reqs = append(reqs, &request{kind: "doc", query: q, vars: vars, tags: tags})
+	}
+	for i := 0; i < nSdocs; i++ {
+		sd := genSdoc(r, d)
+		reqs = append(reqs, &request{kind: "sdoc", query: sd.text, sdoc: sd})
 	}
 	return reqs
 }
@@ -230,7 +239,7 @@ func main() {
 				h.Case(func(r *rng.R) sexp.Node {
 					d := w.make()
 					return runCase("witness", w.name, d, F, func() []*request {
-						reqs := randomRequests(r, d, true, 4, 3)
+						reqs := randomRequests(r, d, true, 4, 3, 6)
 						for _, c := range w.chains {
 							reqs = append(reqs, &request{kind: "chain", query: chainText(c), chain: c})
 						}
@@ -283,7 +292,7 @@ func main() {
 			h.Case(func(r *rng.R) sexp.Node {
 				d := genDesc(r)
 				F := randSubset(r, alphabet)
-				return runCase("random", "", d, F, func() []*request { return randomRequests(r, d, i%6 == 0, 6, 5) })
+				return runCase("random", "", d, F, func() []*request { return randomRequests(r, d, i%6 == 0, 6, 5, 4) })
 			})
 		}
 		// 3. hostile stream: one edit aimed at a construction rule
@@ -296,7 +305,7 @@ func main() {
 				}
 				d.completeAdditional()
 				F := randSubset(r, alphabet)
-				return runCase("hostile", what, d, F, func() []*request { return randomRequests(r, d, false, 2, 2) })
+				return runCase("hostile", what, d, F, func() []*request { return randomRequests(r, d, false, 2, 2, 2) })
 			})
 		}
 	})
